@@ -73,6 +73,7 @@ const (
 	fHugeWeight       = "scenario-huge-weight-allocates"
 	fJSONArrayTrailer = "httpjson-array-trailing-garbage-accepted"
 	fRawLastLine      = "raw-unterminated-last-line-ignored"
+	fNullItem         = "scenario-null-list-item-panics"
 )
 
 // panicSites maps a frame of pandora's code to the finding whose symptom is a panic
@@ -82,6 +83,7 @@ var panicSites = []struct{ frame, id string }{
 	{"scenario/http.convertScenarioToAmmo", fLeadingSleep},
 	{"scenario/grpc.convertScenarioToAmmo", fLeadingSleep},
 	{"postprocessor.(*VarXpathPostprocessor).getValuesFromDOM", fXpathNonNodeSet},
+	{"scenario/config.ExtractVariableStorage", fNullItem},
 }
 
 func classifyPanic(p any, stack string) string {
@@ -112,6 +114,10 @@ func trimStack(s string) string {
 func guard(what string, f func() error) (err error) {
 	defer func() {
 		if p := recover(); p != nil {
+			if v, ok := p.(*violation); ok { // raised by the harness's mirror of gun code
+				err = v
+				return
+			}
 			st := string(debug.Stack())
 			err = &violation{id: classifyPanic(p, st), msg: fmt.Sprintf("panic in %s: %v\n%s", what, p, trimStack(st))}
 		}
